@@ -15,7 +15,7 @@ LEVEL = "exploration"
 ENGINE = "simhist"
 TIERS = {
     "quick": {"runs": 80000, "budget_s": 60, "chunk": 400},
-    "thorough": {"runs": 1500000, "budget_s": 1200, "chunk": 1000},
+    "thorough": {"runs": 5000000, "budget_s": 1500, "chunk": 2000},
 }
 RULE = ("one evaluation = one seeded history (3-30 operations, swarm-selected sub-alphabet) over "
         "Vector.from_shape/from_data (1-3 fixed dims), cell get/set, slice and fancy get/set "
